@@ -70,4 +70,13 @@ PROPS = {
         ],
         assumptions=["ocr client sharing between clones is not modelled (tesseract is not available offline)"],
     ),
+    "C15": dict(
+        gen=[],
+        trusted=[
+            "the GFM pipe-table reader is my transcription of GFM spec 4.10 with the cell scanning of the reference implementation cmark-gfm (a backslash followed by ASCII punctuation is one escaped character; \\| is unescaped to |; cells are trimmed; short rows are padded); it is extracted and run on the implementation's output and cross-checked against a second reader written in Go",
+            "modelled byte-exactly: model.Table.ToMarkdown, docx and odt ParsedTable.ToMarkdown (spans, merged-away cells, padding), xlsx and pptx Table.ToMarkdown + escapeMarkdown, htmldoc ParsedTable.ToMarkdown + escapeMarkdown, the heading-level arithmetic of docx/odt MarkdownWithRAGOptions and rag Chunk.ToMarkdownWithOptions. The read-back theorem is proved for the xlsx / model.Table / pptx writers; docx/odt/htmldoc tables are tied by correspondence and by the readers run on their output (their rows differ only in padding cells and separator spelling)",
+            "NOT covered: list-item emission (docx/odt/htmldoc lists), table-of-contents and front-matter generation, the element walk of each MarkdownWithRAGOptions; heading offset/maximum are ignored by the htmldoc, pptx and xlsx Markdown writers (not examined by this check)",
+        ],
+        assumptions=["inline Markdown inside cell text (emphasis, code spans) is outside the table-level reading"],
+    ),
 }
